@@ -13,6 +13,7 @@ mod graphgen;
 mod rng;
 mod sp;
 mod store;
+mod xml;
 
 use rng::Rng;
 use std::io::{BufRead, BufWriter, Write};
@@ -33,6 +34,7 @@ fn gen(family: &str, profile: &str, seed: u64, count: usize, size: usize) -> Vec
             }
             "sp" => sp::gen_case(&mut r, profile, size).request(),
             "complete" | "karate" | "gnp" | "gnpstat" => gen::gen_case(&mut r, family, profile, size),
+            "xml" => if profile == "roundtrip" { xml::gen_roundtrip(&mut r, size) } else { xml::gen_malformed(&mut r) },
             "mod" => comm::gen_mod(&mut r, profile, size).request(),
             "louv" => comm::gen_louv(&mut r, profile, size).request(),
             "clu" => clu::gen_case(&mut r, profile, size).request(),
@@ -68,6 +70,7 @@ fn run_line(line: &str) -> String {
         "karate" => guarded(gen::observe_karate),
         "gnp" => guarded(move || gen::observe_gnp(&mut t)),
         "gnpstat" => guarded(move || gen::observe_gnpstat(&mut t)),
+        "xml" => guarded(move || xml::observe(&mut t)),
         "mod" => { let c = comm::ModCase::parse(&mut t); guarded(move || comm::observe_mod(&c)) }
         "louv" => {
             let c = comm::LouvCase::parse(&mut t);
@@ -90,6 +93,7 @@ fn candidates(line: &str) -> Vec<String> {
     match cmd.as_str() {
         "store" => store::candidates(&store::Case::parse(&mut t)),
         "sp" => sp::candidates(&sp::Case::parse(&mut t)),
+        "xml" => xml::candidates(line),
         "mod" => comm::candidates_mod(&comm::ModCase::parse(&mut t)),
         "louv" => comm::candidates_louv(&comm::LouvCase::parse(&mut t)),
         "clu" => clu::candidates(&clu::Case::parse(&mut t)),
